@@ -20,7 +20,7 @@ class S(System):
         self.acts = []
 
     def execute(self):
-        self.model.log.append(self.id)
+        self.model.log.append(self)          # the object, not its id: a removed system and its replacement may share an id
         for act in self.acts:
             act()
 
@@ -55,9 +55,16 @@ def midstep(p0: int, p1: int, p2: int, p3: int, actor: int, target: int, pn: int
                     who.clean_up()
                     removed.append(who)
             elif kind == 'remove':
-                if tgt.id in m.systems.systems:
+                if m.systems.systems.get(tgt.id) is tgt:
                     m.systems.remove_system(tgt.id)
                     removed.append(tgt)
+            elif kind == 'replace':                 # remove a system and register a DIFFERENT object under the same id
+                if m.systems.systems.get(tgt.id) is tgt:
+                    m.systems.remove_system(tgt.id)
+                    removed.append(tgt)
+                    new = S(tgt.id, m, prio)
+                    m.systems.add_system(new)
+                    added.append(new)
             else:
                 new = S("new" + tag, m, prio)
                 m.systems.add_system(new)
@@ -73,11 +80,12 @@ def midstep(p0: int, p1: int, p2: int, p3: int, actor: int, target: int, pn: int
         plan.append((a2, kinds[1], t2))
     m.execute()
     log = list(m.log)
+    names = lambda xs: ["%s%s" % (x.id, "" if x in before else "'") for x in xs]
     # (1) nothing runs twice
     for i in range(len(log)):
         for j2 in range(i + 1, len(log)):
-            if log[i] == log[j2]:
-                return hx.end(hx.fail("a system ran twice in one timestep", log=log, queue=[s.id for s in before]))
+            if log[i] is log[j2]:
+                return hx.end(hx.fail("a system ran twice in one timestep", log=names(log), queue=names(before)))
     # reference semantics over the systems registered at the start of the timestep: each runs at its turn iff it is
     # still registered then.  This yields (2) every system that stays registered runs exactly once, in priority
     # order, and (3) a system removed before its turn does not run.
@@ -85,18 +93,17 @@ def midstep(p0: int, p1: int, p2: int, p3: int, actor: int, target: int, pn: int
     exp = []
     for s in before:
         if s in reg:
-            exp.append(s.id)
+            exp.append(s)
             for who, kind, tgt in plan:
                 if who is s:
                     if kind == 'self' and s in reg:
                         reg.remove(s)
-                    elif kind == 'remove' and tgt in reg:
+                    elif kind in ('remove', 'replace') and tgt in reg:
                         reg.remove(tgt)
-    ids_before = [s.id for s in before]
-    got = [i for i in log if i in ids_before]
-    if got != exp:
-        return hx.end(hx.fail("systems skipped / run after removal / reordered", log=log, expected=exp,
-                              queue=ids_before))
+    got = [x for x in log if x in before]
+    if not hx.same_seq(got, exp):
+        return hx.end(hx.fail("systems skipped / run after removal / reordered", log=names(log), expected=names(exp),
+                              queue=names(before)))
     if removed:
         hx.reach('removed')
     if added:
@@ -106,11 +113,11 @@ def midstep(p0: int, p1: int, p2: int, p3: int, actor: int, target: int, pn: int
         s.acts = []
     del m.log[:]
     m.execute()
-    if m.log != [s.id for s in m.systems.execution_queue]:
-        return hx.end(hx.fail("next timestep is not a plain run of the queue", log=m.log))
-    exp_ids = sorted([s.id for s in before if s not in removed] + [s.id for s in added])
-    if sorted(m.log) != exp_ids:
-        return hx.end(hx.fail("next timestep ran a different set of systems", log=m.log, exp=exp_ids))
+    if not hx.same_seq(m.log, m.systems.execution_queue):
+        return hx.end(hx.fail("next timestep is not a plain run of the queue", log=names(m.log)))
+    want = [s for s in before if s not in removed] + list(added)
+    if len(m.log) != len(want) or not all(any(x is y for y in m.log) for x in want):
+        return hx.end(hx.fail("next timestep ran a different set of systems", log=names(m.log), exp=names(want)))
     q = m.systems.execution_queue
     for i in range(len(q) - 1):
         if q[i].priority < q[i + 1].priority:
@@ -129,16 +136,16 @@ ASSUMPTIONS = ["acting systems perform their action at the end of their own exec
 def obligations(tier):
     enc = (SystemManager.execute_systems, SystemManager.add_system, SystemManager.remove_system, System.clean_up)
     ns = (1, 2, 3) if tier == "quick" else (1, 2, 3, 4)
-    parts = [{"n": n, "kinds": [k]} for n in ns for k in ("self", "remove", "add")]
-    two = [(a, b) for a in ("self", "remove", "add") for b in ("self", "remove", "add")]
+    parts = [{"n": n, "kinds": [k]} for n in ns for k in ("self", "remove", "add", "replace")]
+    two = [(a, b) for a in ("self", "remove", "add", "replace") for b in ("self", "remove", "add", "replace")]
     parts += [{"n": n, "kinds": [a, b]} for n in ((2,) if tier == "quick" else (2, 3)) for a, b in two]
 
     def lab(p):
         ks = p["kinds"]
         out = []
-        if "self" in ks or "remove" in ks:
+        if "self" in ks or "remove" in ks or "replace" in ks:
             out.append("removed")
-        if "add" in ks:
+        if "add" in ks or "replace" in ks:
             out.append("added")
         return tuple(out)
     return [X("midstep", midstep, parts=parts, labels=("removed", "added"), labels_for=lab, timeout=600, group=1,
